@@ -353,9 +353,36 @@ Fixpoint settle_trace (kinds : list kind) (prev : list (Z * list Z)) (src : list
    source table and key cells of S2 itself (reference clean-up of BulkRemoveRecord, outside this model).  A
    recorded round therefore carries the source cells as the helper formulas saw them in that round and the
    summary rows as the engine had them when the round began; the model's own table must have exactly those row
-   ids (the keys are taken from the record).  Summary_proofs.settle_rounds_const: when nothing is rewritten this
-   is settle_trace. *)
-Definition round := (list Z * list srow * list mrow)%type.     (* dirty ids, source rows, summary rows at the start *)
+   ids (the keys are taken from the record).  Summary_proofs.settle_rounds_const: when nothing is rewritten and
+   the cells are evaluated in ascending row id order this is settle_trace. *)
+Definition round := (list Z * list srow * list mrow)%type.     (* evaluated ids in order, source rows, summary rows at the start *)
+
+(* The helper cells a round evaluates, in the order the engine evaluated them (ascending row ids, except that a
+   cell another formula needs first is evaluated first; a cell may be evaluated again).  The newest entry of a
+   record is consed in front (entry finds it first). *)
+Fixpoint cells_of (src : list srow) (rid : Z) : option (list cell) :=
+  match src with
+  | [] => None
+  | r :: t => if Z.eqb (fst r) rid then Some (snd r) else cells_of t rid
+  end.
+
+Fixpoint eval_list (kinds : list kind) (src : list srow) (order : list Z) (summ : list mrow)
+  (hs : list (Z * list Z)) : list mrow * list (Z * list Z) :=
+  match order with
+  | [] => (summ, hs)
+  | rid :: t =>
+      match cells_of src rid with
+      | None => eval_list kinds src t summ hs
+      | Some cells =>
+          let '(s1, h) := helper kinds (entry hs rid) summ cells in
+          eval_list kinds src t s1 ((rid, h) :: hs)
+      end
+  end.
+
+Definition pass_o (kinds : list kind) (order : list Z) (prev : list (Z * list Z)) (src : list srow)
+  (summ : list mrow) : list mrow * list (Z * list Z) :=
+  let '(s1, hs) := eval_list kinds src order summ prev in
+  (s1, map (fun r => (fst r, entry hs (fst r))) src).
 
 Fixpoint settle_rounds (kinds : list kind) (prev : list (Z * list Z)) (summ : list mrow) (rounds : list round)
   : option (list orow) :=
@@ -363,7 +390,7 @@ Fixpoint settle_rounds (kinds : list kind) (prev : list (Z * list Z)) (summ : li
   | [] => None
   | (d, src, start) :: rest =>
       if zs_eqb (map fst summ) (map fst start) then
-        let '(s1, hs) := pass_d kinds d prev src start in
+        let '(s1, hs) := pass_o kinds d prev src start in
         let rows := with_groups s1 hs in
         match rest with
         | [] => if forallb nonempty_group rows then Some rows else None
